@@ -194,6 +194,15 @@ def shapes(tier):
                       "field-level format naming the field under two traits", exercises=["impl/src/fmt/debug.rs::Expansion::generate_bounds"]))
     out.append(gshape("display_same_type_two_fields_two_traits", D + '#[display("{a:x}..{b}")]\npub struct G<T, U> { pub a: T, pub b: U }', "Display",
                       "G { a: OnlyHex(i), b: OnlyDisplay(j) }", "[b'x', b'a' + i, b'.', b'.', b'D', b'a' + j]", "adjacent placeholders, different traits"))
+    # explicit bound(..) on an enum itself and on a variant (Display-like derives and Debug)
+    out.append(gshape("explicit_bound_enum_level", D + '#[display(bound(T: Tagged))]\npub enum G<T> {\n    #[display("{}", _0.tagged())]\n    A(T),\n    #[display("b")]\n    B,\n}', "Display",
+                      "G::A(Nothing)", "[b'9']", "`bound(..)` written on the enum reaches the impl"))
+    out.append(gshape("explicit_bound_variant_level", D + 'pub enum G<T> {\n    #[display("{}", _0.tagged())]\n    #[display(bound(T: Tagged))]\n    A(T),\n    #[display("b")]\n    B,\n}', "Display",
+                      "G::A(Nothing)", "[b'9']", "`bound(..)` written on a variant reaches the impl"))
+    out.append(gshape("explicit_bound_enum_level_hex", '#[derive(derive_more::LowerHex)]\n#[lower_hex(bound(T: Tagged))]\npub enum G<T> {\n    #[lower_hex("{:x}", _0.tagged())]\n    A(T),\n}', "LowerHex",
+                      "G::A(Nothing)", "[b'9']", "`bound(..)` written on the enum reaches the impl (non-Display derive)", quick=False))
+    out.append(gshape("debug_explicit_bound_enum_level", DB + '#[debug(bound(T: Tagged))]\npub enum G<T> {\n    #[debug("{}", _0.tagged())]\n    A(T),\n    B,\n}', "Debug",
+                      "G::A(Nothing)", "[b'9']", "Debug: `bound(..)` written on the enum reaches the impl", exercises=["impl/src/fmt/debug.rs::Expansion::generate_bounds"]))
     out = [x for x in out if x.name != "c04_enum_shared_with_field"]
     if tier == "quick":
         out = [s for s in out if s.quick]
